@@ -6,6 +6,8 @@ import os
 ROOT = os.path.dirname(os.path.dirname(os.path.abspath(__file__)))
 PROPS = [json.loads(l)["id"] for l in open(os.path.join(ROOT, "properties.jsonl"))]
 
+TECH_EFFECTS = ("contract-based verification of effects clauses: per-function effect clauses inferred from the working tree's AST and checked "
+                "caller-against-callee (closed world), bounded audit-hook replay as companion")
 TECH = "contract-based deductive verification: sidecar pre/postconditions, frames and loop invariants on the real functions, VCs generated from the working tree's AST by pyvc and discharged by z3 (cvc5 for z3-unknown)"
 
 CHECKS = {
@@ -112,6 +114,17 @@ CHECKS = {
              "the CLI, GLOBAL/INST via replay/const_diff.py. Known findings: String, ShortBinString/BinString, Long1/Long4 encoders (direct "
              "construction only).",
         ref="§C15"),
+    "C01": dict(
+        text="Effects clauses, checked function by function: for each of the ~190 functions reachable from the analysis entry points (parse, stacked "
+             "parse, decompile, trace, safety check, likely-safe query, cli.main; every opcode run, every analysis, properties, dunder methods) the "
+             "clause 'own primitive effects ∪ callees' clauses' is recomputed from the working tree with closed-world call resolution, and every "
+             "primitive effect site is an obligation: its row must be one the statement allows (read/seek of the given stream, stdout/stderr, "
+             "the caller's / command-line paths, stdlib_list's package data). No import, attribute resolution, call, exec/compile, unpickling, "
+             "spawn, connection or computed-path open is reachable, on any path, for any input. No SMT is involved (obligations are syntactic).",
+        note="Trusted: effect rows of externals; closed-world method resolution (over-approximate); import-time code and C extensions are outside. "
+             "Unclassifiable sites (computed callee, external without a row) are weak obligations: violation only if replay/inert_diff.py (audit hook, "
+             "sentinel globals, 9 entry points, ~760 inputs; bounded) shows the effect, else undecided (exit 2).",
+        ref="§C01", tech=TECH_EFFECTS),
 }
 NA_REASON = "check not built yet (work in progress; see DESIGN.md)"
 
@@ -135,7 +148,7 @@ for p in PROPS:
             "property_id": p, "quick_cmd": f"./check {p} --tier quick", "thorough_cmd": f"./check {p} --tier thorough",
             "evidence_file": f"evidence/{p}.json", "replay_cmd_template": "cat {path}", "engine": "pyvc",
             "level_claimed": {"category": "proof", "text": c["text"], "design_ref": c["ref"]},
-            "level_note": c["note"], "technique": TECH})
+            "level_note": c["note"], "technique": c.get("tech", TECH)})
     else:
         m["not_applicable"].append({"property_id": p, "reason": NA_REASON})
 json.dump(m, open(os.path.join(ROOT, "MANIFEST.json"), "w"), indent=1)
